@@ -1,13 +1,14 @@
 (* C11 — Class, dictionary and parser forms of a decay convert into each other losslessly.
    Proved here: the decay-mode round trip and the final-state constructor laws (unbounded).
    The chain-level round trip  from_dict (to_dict c)  (model: chain_to_dict / build_modes in Decay/ChainClass.v, including
-   repeated decaying particles) is C11_chain_roundtrip (Decay/ChainRoundTrip.v).  Still executed only: the parser form
-   (DecFileParser.build_decay_chains output -> DecayChain.from_dict) is tied by the correspondence; that to_dict returns for
-   acyclic chains is exercised, not proved (chain_to_dict is fuelled). *)
+   repeated decaying particles) is C11_chain_roundtrip (Decay/ChainRoundTrip.v).  The parser form
+   (DecFileParser.build_decay_chains output -> DecayChain.from_dict -> to_dict) is C11_parser_chain_roundtrip
+   (Dec/ParserForm.v): for every single-line chain the parser model builds, from_dict succeeds and to_dict returns (with
+   fuel bounded by the size of the chain: it is not a fuel artefact) the same dictionary up to the order of daughters. *)
 From Coq Require Import String List Bool ZArith QArith Arith Permutation.
 From DL Require Import Fmt.DescFormat.
 From DL Require Import Lib.Val Lib.PyDict Lib.Sort Decay.Conj Decay.ConjProofs Decay.ChainDict Decay.ChainClass
-  Decay.ChainClassProofs Decay.Flatten Decay.ChainRoundTrip.
+  Decay.ChainClassProofs Decay.Flatten Decay.ChainRoundTrip Dec.Tables Dec.ChainsProofs Dec.ParserForm.
 Import ListNotations.
 Close Scope Q_scope.
 Open Scope string_scope.
@@ -77,3 +78,35 @@ Example C11_chain_example :
   exists d, chain_to_dict 5 ex_decays "D0" = Some d /\
             match chain_from_dict d with COk c => map fst (c_decays c) = ["K_S0"; "pi0"; "D0"] | CErr _ => False end.
 Proof. eexists. split; [vm_compute; reflexivity|]. vm_compute. reflexivity. Qed.
+
+(* the parser clause.  c is what build_decay_chains returns for m (any tables T, any stable set S not containing m), every
+   particle in it having exactly one decay line.  Then DecayChain.from_dict(c) is a chain with mother m, and its to_dict()
+   returns d' with  sim c d' : the same mother, branching fraction and model information at every level, the daughters of
+   every level a permutation of the original's, sub-decays related in the same way. *)
+Theorem C11_parser_chain_roundtrip : forall T S fuel m c,
+  build fuel T S m = Some (Some c) -> one_mode c -> ~ In m S ->
+  exists decays d', chain_from_dict c = COk {| c_mother := m; c_decays := decays |}
+                    /\ chain_to_dict (Datatypes.S (csize c)) decays m = Some d' /\ sim c d'.
+Proof. intros T S fuel m c H. apply (parser_chain_roundtrip T S). exact (build_sound T S fuel m c H). Qed.
+Print Assumptions C11_parser_chain_roundtrip.
+
+(* non-vacuity: a table set with a particle (pi0) decaying at two places of the chain *)
+Definition exT11 : list table :=
+  [("D*+", [{| l_bf := 1#2; l_fs := ["pi0"; "D0"; "pi+"]; l_photos := false; l_model := "VSS"; l_params := None |}]);
+   ("D0", [{| l_bf := 1#4; l_fs := ["pi0"; "K-"; "pi+"; "pi0"]; l_photos := true; l_model := "PHSP"; l_params := Some [PNum 42] |}]);
+   ("pi0", [{| l_bf := 98#100; l_fs := ["gamma"; "gamma"]; l_photos := false; l_model := "PHSP"; l_params := None |}]);
+   ("K-", [])].
+Example C11_parser_example :
+  exists c, build 5 exT11 ["pi+"; "K-"] "D*+" = Some (Some c) /\ one_mode c /\ ~ In "D*+" ["pi+"; "K-"]
+            /\ match chain_from_dict c with
+               | COk ch => map fst (c_decays ch) = ["pi0"; "D0"; "D*+"]
+                           /\ match chain_to_dict (Datatypes.S (csize c)) (c_decays ch) "D*+" with
+                              | Some d' => d' <> c            (* the daughters do come back in another order *)
+                              | None => False
+                              end
+               | CErr _ => False
+               end.
+Proof.
+  eexists. split; [vm_compute; reflexivity|]. split; [cbn; tauto|]. split; [intros [H|[H|[]]]; discriminate|].
+  vm_compute. split; [reflexivity | discriminate].
+Qed.
